@@ -280,6 +280,8 @@ func describeOps(c *Case) string {
 			ops = append(ops, fmt.Sprintf("iniwrite %d", op.Bits))
 		case "help":
 			ops = append(ops, fmt.Sprintf("help cols=%d", op.Cols))
+		case "build":
+			ops = append(ops, fmt.Sprintf("%s on command %d %s%s", op.B.Kind, op.B.Target, op.B.Name+op.B.Short+op.B.Attr, strings.Join(op.B.Vals, ",")))
 		default:
 			ops = append(ops, op.Kind)
 		}
